@@ -1065,6 +1065,11 @@ def _multi(rep, ex: Explorer, stats):
                 flagged = isinstance(v, TupleV) and len(v.items) == 4 and v.items[0] == Const(k) and v.items[1] == Const(False) and v.items[2] == Const(True)
                 theirs = isinstance(v, Sym) and v.label == ("dictitem", ("dict", shared_oid), ("c", k))
                 case = f"alive={alive.get(k)}, row left={present.get(k)}"
+                if flagged and isinstance(v.items[3], Const) and not (isinstance(v.items[3].value, (int, float)) and not isinstance(v.items[3].value, bool)):
+                    # the fourth column is summed by Inference.inference and rounded by the manager's report: a row whose time is
+                    # not a number turns the flagged expiry into an exception that loses the whole call
+                    rep.violation("TIMEOUT.row", site, "time column of a flagged row", "the time column of every row is a number (it is summed and rounded by the callers): an expiry is reported, not raised",
+                                  extracted=f"{slot0}, query {k} ({case}): {v!r}"[:200], required=f"({k}, False, True, <number>)", function=site)
                 if alive.get(k) is True:
                     rep.check(flagged, "TIMEOUT.row", site, "terminated worker's row", "a worker that had to be terminated is reported as timed out with answer False, under its query's key",
                               extracted=f"{slot0}, query {k} ({case}): {v!r}"[:200], required=f"({k}, False, True, ..)", function=site)
